@@ -1102,6 +1102,9 @@ pub enum Mutation {
     FileSelfInclude { file: u16 },
     FileMutualInclude { a: u16, b: u16 },
     FileCopyMain { file: u16 },
+    /// a stand-off file gets a hostile name (its extension kept); via 0: the "@include" members / Filename cells that
+    /// named it follow, 1: they follow as "./name", 2: they keep the old name
+    FileRename { file: u16, name: HStr, via: u8 },
     // ---- bytes
     Truncate { file: u16, at: u16 },
     FlipBit { file: u16, pos: u16, bit: u8 },
@@ -1152,6 +1155,7 @@ impl Mutation {
             Mutation::FileSelfInclude { .. } => "file.self-include",
             Mutation::FileMutualInclude { .. } => "file.mutual-include",
             Mutation::FileCopyMain { .. } => "file.copy-main",
+            Mutation::FileRename { .. } => "file.rename",
             Mutation::Truncate { .. } => "bytes.truncate",
             Mutation::FlipBit { .. } => "bytes.flip",
             Mutation::Splice { .. } => "bytes.splice",
@@ -1452,6 +1456,58 @@ pub fn apply_l(docs: &mut DocSet, m: &Mutation, labels: &mut Vec<String>) -> boo
                 labels.push("str:renamed-consistently".into());
             }
             any
+        }
+        Mutation::FileRename { file, name, via } => {
+            if docs.len() < 2 {
+                return false;
+            }
+            let i = 1 + pick(*file, docs.len() - 1);
+            let old = docs[i].0.clone();
+            let ext = old.find('.').map(|p| &old[p..]).unwrap_or("");
+            let mut stem: String = name.render().chars().filter(|c| !matches!(c, '/' | '\\' | '\0')).collect();
+            while stem.len() + ext.len() > 110 {
+                stem.pop();
+            }
+            let new = format!("{}{}", stem, ext);
+            if new == old || !safe_name(&new) || docs.iter().any(|(n, _)| *n == new) {
+                return false;
+            }
+            docs[i].0 = new.clone();
+            let refer = match via % 3 {
+                0 => Some(new.clone()),
+                1 => Some(format!("./{}", new)),
+                _ => None,
+            };
+            if let Some(refer) = refer {
+                for k in 0..docs.len() {
+                    if docs[k].0.ends_with(".json") {
+                        let Some(mut j) = J::parse(&docs[k].1) else { continue };
+                        let paths = j.paths(&|key, v| key == Some("@include") && matches!(v, J::Str(x) if *x == old));
+                        for p in &paths {
+                            if let Some(J::Str(x)) = j.at_mut(p) {
+                                *x = refer.clone();
+                            }
+                        }
+                        if !paths.is_empty() {
+                            docs[k].1 = j.write().into_bytes();
+                        }
+                    } else if docs[k].0.ends_with(".csv") {
+                        let Some(mut rows) = csv_parse(&docs[k].1) else { continue };
+                        let mut hit = false;
+                        for cell in rows.iter_mut().flatten() {
+                            if *cell == old {
+                                *cell = refer.clone();
+                                hit = true;
+                            }
+                        }
+                        if hit {
+                            docs[k].1 = csv_write(&rows).into_bytes();
+                        }
+                    }
+                }
+            }
+            string_features(&new, labels);
+            true
         }
         Mutation::CHead { nth, delta } => apply_l(docs, &Mutation::CLen { class: None, nth: *nth, len: LenChoice::Delta(*delta) }, labels),
         Mutation::JDelete { file, field, nth } => with_json(docs, *file, |j, _, _| {
@@ -1924,7 +1980,7 @@ impl C {
                 kinds.sort();
                 kinds.dedup();
                 let record = kinds.len() >= 2 || depth0;
-                (0..v.len()).map(|i| if record { format!("{}", i.min(40)) } else { "*".to_string() }).collect()
+                (0..v.len()).map(|i| if record { format!("{}", i.min(120)) } else { "*".to_string() }).collect()
             };
             match c {
                 C::A(v) => {
